@@ -9,7 +9,17 @@
              hence an ORACLE: the model only checks that it is a permutation of 0..len(Lij)-1)
    The code draws every randint before the first permutation, so the recorded stream splits
    by kind without loss.  P, Si/So/S and their updates only feed argsort and are not modelled:
-   their whole influence is the oracle order. *)
+   their whole influence is the oracle order -- and, for an integer-dtype W, the UFuncTypeError
+   that `P[i[o], :] *= f` raises at the first dealt weight (modelled: outcome CastError).
+
+   Further float-decided inputs (oracles, taken from the run; theorems quantify over all values):
+     close : the result of np.allclose(W, W.T) -- only consulted when W is not exactly symmetric
+     pf    : the result of np.round(1 / wei_freq).astype(int) on binary64 -- accepted iff it lies
+             strictly within 1 of the exact quotient (true of every correctly rounded division
+             followed by a rounding to an integer)
+   Carrier Z stands for any fixed-point grid: a dyadic weight k/2^m is represented by k (sign
+   tests, moves, negation, sorting and W0 + W0.T commute with the scaling; a correlation triple
+   scales by 2^(2m) in all three components). *)
 From Coq Require Import ZArith QArith Qround List Arith Lia Bool.
 From BCT Require Import Base.Mat Base.ListX Model.Signed.
 Import ListNotations.
@@ -103,10 +113,19 @@ Definition round_half_even (x : Q) : Z :=
   | Gt => f + 1
   | Eq => if Z.even f then f else f + 1
   end.
+(* the exact-rational reading of the statement *)
 Definition period_of (wf : Q) : option nat :=
   if Qeq_bool wf 0 then Some O else
   let p := round_half_even (1 / wf)%Q in
   if p <? 1 then None else Some (Z.to_nat p).
+
+(* the code's reading: the quotient and the rounding are binary64 operations; their integer result pf
+   is an oracle, admitted when pf - 1 < 1/wf < pf + 1 *)
+Definition near (wf : Q) (pf : Z) : bool :=
+  (negb (Qle_bool (1 / wf) (inject_Z pf - 1)) && negb (Qle_bool (inject_Z pf + 1) (1 / wf)))%bool.
+Definition period_or (wf : Q) (pf : Z) : option nat :=
+  if Qeq_bool wf 0 then Some O else
+  if (near wf pf && negb (pf <? 1))%bool then Some (Z.to_nat pf) else None.
 
 (* strength sequences: np.sum(W * (W > 0), axis=0) etc. *)
 Definition ppart (z : Z) : Z := if 0 <? z then z else 0.      (*  W * (W > 0) *)
@@ -130,46 +149,91 @@ Definition corr4 (n : nat) (W W0 : mat Z) : list (Z * Z * Z) :=
     corr3 (str_in npart W n) (str_in npart W0 n) n;      (* rneg_in *)
     corr3 (str_out npart W n) (str_out npart W0 n) n ].  (* rneg_ou *)
 
-(* np.allclose(W, W.T) on the integer inputs considered = exact symmetry *)
+(* exact symmetry; np.allclose(W, W.T) is true for such W (|a - a| = 0 <= atol + rtol*|a|) and is the
+   float-decided oracle [close] otherwise *)
 Definition symb (n : nat) (W : mat Z) : bool :=
   forallb (fun c => Z.eqb (W (fst c) (snd c)) (W (snd c) (fst c))) (cells n).
 
 Definition zero_mat : mat Z := fun _ _ => 0.
 
+(* nm_unread: recorded randint draws / argsort orders / permutation draws the run did not consume *)
 Record nm_result := { nm_W0 : mat Z; nm_corr : list (Z * Z * Z); nm_Wr : mat Z;
-                      nm_trace : list (quad * mat Z) }.
+                      nm_trace : list (quad * mat Z); nm_unread : nat * (nat * nat) }.
 
-Definition null_model (und : bool) (n : nat) (W : mat Z) (bin_swaps : nat) (wf : Q)
-  (ints : list Z) (ords perms : list (list nat)) : option nm_result :=
-  if (und && negb (symb n W))%bool then None else          (* raise BCTParamError *)
+(* how a call ends *)
+Inductive nm_outcome :=
+| Returned (r : nm_result)
+| ParamError     (* raise BCTParamError("Input must be undirected") *)
+| NoQuad         (* the rewiring never gets four distinct nodes: RecursionError (always for n <= 3) *)
+| BadPeriod      (* round(1/wei_freq) < 1, or an oracle value that is not a rounding of 1/wei_freq *)
+| CastError      (* integer-dtype W, wei_freq != 0, at least one weight: `P[i[o], :] *= f` raises UFuncTypeError *)
+| DealError.     (* an argsort / permutation oracle of the wrong shape, or too few of them *)
+
+(* is there a weight to deal (on the cells the routine works on)? *)
+Definition has_weight (und : bool) (n : nat) (Wc : mat Z) : bool :=
+  existsb (fun c => negb (Z.eqb (at_ Wc c) 0)) (univ und n).
+
+Definition null_model (und : bool) (n : nat) (W : mat Z) (isint close : bool) (bin_swaps : nat)
+  (wf : Q) (pf : Z) (ints : list Z) (ords perms : list (list nat)) : nm_outcome :=
+  if (und && negb (symb n W || close))%bool then ParamError else     (* if not np.allclose(W, W.T): raise *)
   let Wc := tab 0 n n (clear_diag W) in
   (* if np.size(np.where(Ap.flat)) < n*(n-1): rewire the sign pattern *)
-  let '(Wr, tr) :=
-    if (length (supp false n 1 Wc) <? n * (n - 1))%nat
-    then let '(Rf, _, tr) := randmio_signed und n Wc bin_swaps ints in (Rf, tr)
-    else (Wc, []) in
-  match period_of wf with
-  | None => None
+  let rew := (length (supp false n 1 Wc) <? n * (n - 1))%nat in
+  if (rew && runs_out und n (n_iter und n bin_swaps) Wc ints)%bool then NoQuad else
+  let '(Wr, rest, tr) :=
+    if rew then randmio_signed und n Wc bin_swaps ints else (Wc, ints, []) in
+  match period_or wf pf with
+  | None => BadPeriod
   | Some per =>
+    if (isint && negb (Nat.eqb per 0) && has_weight und n Wc)%bool then CastError else
     match deal_sign und n per 1 Wc Wr zero_mat ords perms with
-    | None => None
+    | None => DealError
     | Some (W1, ords1, perms1) =>
       match deal_sign und n per (-1) Wc Wr W1 ords1 perms1 with
-      | None => None
-      | Some (W2, _, _) =>
+      | None => DealError
+      | Some (W2, ords2, perms2) =>
         let Wout := if und then tab 0 n n (fun i j => W2 i j + W2 j i) else W2 in
-        Some {| nm_W0 := Wout; nm_corr := corr4 n Wc Wout; nm_Wr := Wr; nm_trace := tr |}
+        Returned {| nm_W0 := Wout; nm_corr := corr4 n Wc Wout; nm_Wr := Wr; nm_trace := tr;
+                    nm_unread := (length rest, (length ords2, length perms2)) |}
       end
     end
   end.
 
+(* ---------- well-shaped oracles (for the totality theorem): one argsort order and one permutation of
+   0..m-1 per period, m = wsize, wsize - period, ... ---------- *)
+Fixpoint oracles_ok (fuel period m : nat) (ords perms : list (list nat))
+  : option (list (list nat) * list (list nat)) :=
+  if Nat.eqb m 0 then Some (ords, perms) else
+  match fuel with
+  | O => None
+  | S f =>
+    match ords, perms with
+    | Oi :: ords', P :: perms' =>
+      if (check_perm m Oi && check_perm m P)%bool then oracles_ok f period (m - period) ords' perms' else None
+    | _, _ => None
+    end
+  end.
+Definition oracles_ok_sign (period m : nat) (ords perms : list (list nat))
+  : option (list (list nat) * list (list nat)) :=
+  if Nat.eqb period 0 then
+    match ords with Oi :: ords' => if check_perm m Oi then Some (ords', perms) else None | [] => None end
+  else oracles_ok m period m ords perms.
+
 (* ---------- executable interface ---------- *)
-Definition run_null_model (und : bool) (rows : list (list Z)) (bin_swaps : nat) (wf : Q)
-  (ints : list Z) (ords perms : list (list nat))
-  : option (list (list Z) * list (Z * Z * Z) * (list (list Z) * list (list nat * list (list Z)))) :=
+Inductive nm_run :=
+| RunOk (W0 : list (list Z)) (corr : list (Z * Z * Z)) (Wr : list (list Z))
+        (tr : list (list nat * list (list Z))) (unread : nat * (nat * nat))
+| RunRaise (code : nat).   (* 1 ParamError, 2 NoQuad, 3 BadPeriod, 4 CastError, 5 DealError *)
+
+Definition run_null_model (und : bool) (rows : list (list Z)) (isint close : bool) (bin_swaps : nat)
+  (wf : Q) (pf : Z) (ints : list Z) (ords perms : list (list nat)) : nm_run :=
   let n := length rows in
-  match null_model und n (of_rows 0 rows) bin_swaps wf ints ords perms with
-  | None => None
-  | Some r => Some (zrows n (nm_W0 r), nm_corr r,
-                    (zrows n (nm_Wr r), map (fun e => (quad_list (fst e), zrows n (snd e))) (nm_trace r)))
+  match null_model und n (of_rows 0 rows) isint close bin_swaps wf pf ints ords perms with
+  | Returned r => RunOk (zrows n (nm_W0 r)) (nm_corr r) (zrows n (nm_Wr r))
+                        (map (fun e => (quad_list (fst e), zrows n (snd e))) (nm_trace r)) (nm_unread r)
+  | ParamError => RunRaise 1
+  | NoQuad => RunRaise 2
+  | BadPeriod => RunRaise 3
+  | CastError => RunRaise 4
+  | DealError => RunRaise 5
   end.
